@@ -52,6 +52,10 @@ def clean_attributes(
         array([[1]], dtype=uint32)
 
     """
+    if not poly.size:
+        # `poly.coefficients` is empty for arrays without elements, which
+        # `from_attributes` would take for an (unwritten) scalar.
+        return poly
     return numpoly.ndpoly.from_attributes(
         exponents=poly.exponents,
         coefficients=poly.coefficients,
